@@ -49,6 +49,13 @@ static Tok drive_await_self(SP *sp, int *done) {
     co_await *sp;
     ++*done;
 }
+// own handle first: the suspend point the coroutine awaits is [me, slot contents...]
+static Tok drive_await_self_first(SP *sp, int *done) {
+    SP mine = co_await cocls::self();
+    mine << std::move(*sp);
+    co_await mine;
+    ++*done;
+}
 static Tok drive_await_typed(SPI *sp, int *done, int *value) {
     *value = co_await *sp;
     ++*done;
@@ -78,7 +85,7 @@ struct World {
     }
 };
 
-enum Kind { NEW, ADD, ADD4, MERGE, ASSIGN, MOVECTOR, POP, CLEAR, DESTROY, AWAIT, AWAITSELF, NEWT, TADD, TMOVE, TTOVOID, TPOP, TDESTROY, TAWAIT };
+enum Kind { NEW, ADD, ADD4, MERGE, ASSIGN, MOVECTOR, POP, CLEAR, DESTROY, AWAIT, AWAITSELF, AWAITSELF1, NEWT, TADD, TMOVE, TTOVOID, TPOP, TDESTROY, TAWAIT };
 struct OpDef {
     Kind k;
     int a, b;
@@ -101,6 +108,8 @@ static void build_ops(int nv) {
         g_ops.push_back({CLEAR, i, -1, S("clear", i)});
         g_ops.push_back({DESTROY, i, -1, S("destroy", i)});
         g_ops.push_back({AWAIT, i, -1, S("await", i)});
+        g_ops.push_back({AWAITSELF, i, -1, S("awaitself-last", i)});
+        g_ops.push_back({AWAITSELF1, i, -1, S("awaitself-first", i)});
         for (int j = 0; j < nv; j++)
             if (i != j) {
                 g_ops.push_back({MERGE, i, j, S("merge", i, j)});
@@ -129,7 +138,8 @@ static bool enabled(const World &w, const OpDef &o, int maxh) {
         case CLEAR:
         case DESTROY:
         case AWAIT:
-        case AWAITSELF: return w.v[o.a].has_value();
+        case AWAITSELF:
+        case AWAITSELF1: return w.v[o.a].has_value();
         case NEWT: return !w.t && w.live() < maxh;
         case TADD: return w.t.has_value() && w.live() < maxh;
         case TMOVE:
@@ -166,6 +176,11 @@ static void apply(World &w, const OpDef &o) {
         case AWAITSELF: {
             w.drivers.emplace_back(new int(0));
             drive_await_self(&*w.v[o.a], w.drivers.back().get()).h.resume();
+            break;
+        }
+        case AWAITSELF1: {
+            w.drivers.emplace_back(new int(0));
+            drive_await_self_first(&*w.v[o.a], w.drivers.back().get()).h.resume();
             break;
         }
         case NEWT:
